@@ -22,9 +22,13 @@ Definition parse_hex (s : list Z) : option Z := match s with [] => None | _ => p
 Definition ocons (v : Z) (o : option (list Z)) : option (list Z) :=
   match o with Some l => Some (v :: l) | None => None end.
 
+Definition same (last : option Z) (v : Z) : bool := match last with Some l => l =? v | None => false end.
+
 (* the wave characters after the leading 'x', with the labels still unread; one sample per character:
    '.' repeats the previous sample; a 1-bit row carries '0'/'1'; a wider row carries '2' and consumes one
-   label; the row must end with a single closing 'x' exactly when the labels are used up *)
+   label; a value character that merely repeats the previous sample is rejected (repeats are run-length
+   encoded as dots: the rendering is canonical); the row must end with a single closing 'x' exactly when
+   the labels are used up *)
 Fixpoint decode_body (one_bit : bool) (last : option Z) (wave : list Z) (labels : list (list Z)) : option (list Z) :=
   match wave with
   | [] => None
@@ -33,13 +37,13 @@ Fixpoint decode_body (one_bit : bool) (last : option Z) (wave : list Z) (labels 
       else if c =? 46 then
         (match last with Some v => ocons v (decode_body one_bit last rest labels) | None => None end)
       else if one_bit then
-        (if c =? 48 then ocons 0 (decode_body one_bit (Some 0) rest labels)
-         else if c =? 49 then ocons 1 (decode_body one_bit (Some 1) rest labels)
+        (if c =? 48 then (if same last 0 then None else ocons 0 (decode_body one_bit (Some 0) rest labels))
+         else if c =? 49 then (if same last 1 then None else ocons 1 (decode_body one_bit (Some 1) rest labels))
          else None)
       else if c =? 50 then
         (match labels with
          | lb :: ls => match parse_hex lb with
-                       | Some v => ocons v (decode_body one_bit (Some v) rest ls)
+                       | Some v => if same last v then None else ocons v (decode_body one_bit (Some v) rest ls)
                        | None => None
                        end
          | [] => None
